@@ -174,7 +174,7 @@ func randSmtpTerm(r *rand.Rand, tag string, brokenOnly bool) luaTerm {
 		return brokenTerm(r, false)
 	}
 	code := []int{550, 551, 5, 999, 421, 450}[r.Intn(6)]
-	msg := []string{"go away", "Denied by policy!", "", "x y  z", "no " + tag, "quote \" back\\slash"}[r.Intn(6)]
+	msg := []string{"go away", "Denied by policy!", "", "x y  z", "no " + tag, "quote \" back\\slash", "mailbox is at 100% of its quota", "%s%d %v"}[r.Intn(8)]
 	switch r.Intn(9) {
 	case 0, 1:
 		return luaTerm{enc: "allow", body: "return smtp.allow()", ans: &hookAns{"allow", 0, ""}}
